@@ -87,6 +87,14 @@ func (l *RandomLayout) IfOneLine() bool {
 	return b
 }
 
+func (l *RandomLayout) ArmBlockOnArrowLine() bool {
+	b := l.n(2, "armBlockOnArrowLine") == 0
+	if b {
+		l.Kinds["multi-line arm body started on the -> line"]++
+	}
+	return b
+}
+
 func (l *RandomLayout) RhsNextLine() bool {
 	b := l.n(2, "rhsNextLine") == 0
 	if b {
